@@ -1,4 +1,7 @@
 SPECIFICATION Spec
+CONSTANTS
+  CleanupOnDrop = TRUE
+  WithCancel = FALSE
 INVARIANTS NoDeadlock NoDuplicateCall MaxIssued Causal ResultIndependent
 PROPERTY EncodeTerminates
 CHECK_DEADLOCK FALSE
